@@ -294,6 +294,10 @@ EDGES = [
     "void f(void){struct{_Alignas(32) char c;}a[3]={{1},{2}};}", "void f(void){union{_Alignas(16) char c[20];int i;}u={.i=1};}", "int b[0]={1,2,3};", "struct{int a[0];int b;}s={1};",
     "void f(void){int b[0]={1};}", "struct{int b;int a[0];}s={1,2};", "int c[0][2]={{1,2}};", "void f(void){struct{int a[0];}s={{1}};}",
     "int x; char s[6] = { \"abc\", [2] = x };", "struct { unsigned short s[6]; } u = { .s = u\"abc\", .s[2] = u.s[3] = 1 };", "int f(void); struct { char s[4]; } v = { \"ab\", .s[1] = f() };",
+    # assembler labels in every order of declarations with and without one
+    "int f(void); int f(void) __asm__(\"g\");", "int x; int x __asm__(\"y\");", "int counter; int get(void){ extern int counter __asm__(\"ctr\"); return counter; }",
+    "int f(void) __asm__(\"g\"); int f(void);", "int x __asm__(\"y\"); int x __asm__(\"z\");", "extern int x __asm__(\"y\"); int x = 1; int x __asm__(\"y\");", "void h(void){ extern int q; { extern int q __asm__(\"r\"); } }",
+    "int f(void); void h(void){ int f(void) __asm__(\"g\"); }", "static int s; static int s __asm__(\"t\");", "int x __asm__(\"\"); int y __asm__(\"a b\"); int z __asm__(\"\\\"\");",
     "static int x = 1/0;", "static int x = 1%0;", "static unsigned x = 1u/0u;", "static unsigned long x = 1ul%0ul;",
     "void f(int a){switch(a){case 1/0:;}}", "enum e {A = 1/0};", "int a[1/0];", "struct s {int x:1/0;};",
     "static int x = (-2147483647-1)/-1;", "static int x = (-2147483647-1)%-1;",
